@@ -717,6 +717,9 @@ func genGzBomb(rng *rand.Rand, i int) scenario {
 }
 
 func runFam(t *testing.T, r *vlib.Run, fam string, n int, gen func(*rand.Rand, int) scenario) {
+	if f := os.Getenv("VERIF_FAM"); f != "" && f != fam { // debugging aid only
+		return
+	}
 	for i := 0; i < n; i++ {
 		if !r.Want(fam, i) {
 			continue
